@@ -63,8 +63,12 @@ add(H("REPLAY", "m_replay_time_literal", "verif_k::c10::m_replay_time_literal", 
 add(H("REPLAY", "m_dump_rules", "verif_k::c10::m_dump_rules", "", kani=False))
 add(H("REPLAY", "m_replay_percent_phrase", "verif_k::c10::m_replay_percent_phrase", "", kani=False))
 add(H("REPLAY", "m_replay_wiring", "verif_k::c10::m_replay_wiring", "", kani=False))
+add(H("REPLAY", "m_replay_number_literal", "verif_k::c10::m_replay_number_literal", "", kani=False))
+add(H("REPLAY", "m_replay_literal_text", "verif_k::c10::m_replay_literal_text", "", kani=False))
+add(H("REPLAY", "m_replay_radix_literal", "verif_k::c10::m_replay_radix_literal", "", kani=False))
 add(H("REPLAY", "d_dump_units", "verif_k::c12::d_dump_units", "", kani=False))
 add(H("REPLAY", "k_replay_set_text_lines", "verif_k::c04::k_replay_set_text_lines", "", kani=False))
+add(H("REPLAY", "k_replay_update_currency", "verif_k::c04::k_replay_update_currency", "", kani=False))
 add(H("REPLAY", "k_replay_registration", "verif_k::c04::k_replay_registration", "", kani=False))
 add(H("REPLAY", "k_replay_api_rule", "verif_k::c04::k_replay_api_rule", "", kani=False))
 add(H("REPLAY", "k_replay_session_reuse", "verif_k::c04::k_replay_session_reuse", "", kani=False))
